@@ -497,6 +497,17 @@ func init() {
 	}
 
 	// ---- file system effect model (DESIGN 2.8): content ids per file name; 0 absent, -1 partial/corrupt, >0 a complete content ----
+	// os.ReadFile: unconstrained content or an error; visible to "callsite os.ReadFile" clauses
+	s["os.ReadFile"] = func(ex *Exec, fr *Frame, st *State, c *callCtx) Val {
+		base := ex.newRef(st, "readfile")
+		ex.havocMemBase(st, types.Typ[types.Uint8], base)
+		ln := ex.fresh("filelen", bv64)
+		ex.assume("true", and(app("bvsge", ln, bvLit(0, 64)), app("bvult", ln, "#x0000100000000000")))
+		isErr := ex.fresh("fails.readfile", sBool)
+		e := ex.freshErr(st, "readfile")
+		return tup(Val{T: c.results().At(0).Type(), L: []string{ite(isErr, "0", base), bvLit(0, 64), ite(isErr, bvLit(0, 64), ln), ite(isErr, bvLit(0, 64), ln)}},
+			Val{T: errType(), L: []string{ite(isErr, e.L[0], "0"), ite(isErr, e.L[1], "0")}})
+	}
 	s["os.WriteFile"] = func(ex *Exec, fr *Frame, st *State, c *callCtx) Val {
 		name := c.args[0].L[0]
 		cid := ex.fresh("content", sInt)
